@@ -17,7 +17,8 @@ pub const ALPHABET: [&str; 30] = [
 const INSERTED: [&str; 6] = ["\u{feff}", "\r", "\u{a0}", "\u{2028}", "\0", "\u{200b}"];
 
 fn kinds(t: &str) -> String {
-    lexer::lex(t).iter().map(|k| format!("{:?}", k.kind)).collect::<Vec<_>>().join(",")
+    // the key under which distinct inputs are counted; a lexer that panics is reported by `check_lossless`
+    catch_unwind(AssertUnwindSafe(|| lexer::lex(t).iter().map(|k| format!("{:?}", k.kind)).collect::<Vec<_>>().join(","))).unwrap_or_else(|_| "lexer-panicked".into())
 }
 
 /// C12 oracle on one text. Returns (class, detail) for each violated clause.
